@@ -38,6 +38,8 @@ InterfaceX(name, extT, ms)     == [k |-> "interface", name |-> name, extends |->
 
 EnumDecl(name, kinds)          == [k |-> "enum", name |-> name, kinds |-> kinds]       \* kinds: per member "str" (= 'lit') or "num" (= 1 / no initialiser)
 ImportT(name)                  == [k |-> "import", name |-> name]                      \* import type { name } from './types'
+TypeParamD(name)               == [k |-> "tparam", name |-> name]                      \* <name extends string>(props: …) => …  (a type parameter of the setup function)
+ClassD(name)                   == [k |-> "class", name |-> name]                       \* class name {}  (its instances are objects)
 
 (* env: sequence of declarations (an interface may be declared several times: merging) *)
 AliasOf(env, n)      == LET idx == {i \in 1..Len(env) : env[i].k = "alias" /\ env[i].name = n} IN
@@ -138,6 +140,7 @@ CtorsD(t, env, D) ==         \* sequence of constructor names; "null" = the null
          ELSE IF EnumOf(env, t.name).k # "none" THEN      \* the values of an enum are the strings / numbers of its members
               LET ks == EnumOf(env, t.name).kinds IN
               IF ks = <<>> THEN <<"Number">> ELSE Dedup([i \in 1..Len(ks) |-> IF ks[i] = "str" THEN "String" ELSE "Number"])
+         ELSE IF \E i \in 1..Len(env) : env[i].k = "class" /\ env[i].name = t.name THEN <<"Object">>
          ELSE CASE t.name \in BuiltinClasses -> <<t.name>>
                 [] t.name \in {"Partial", "Required", "Readonly", "Record", "Pick", "Omit", "InstanceType"} -> <<"Object">>
                 [] t.name \in {"Uppercase", "Lowercase", "Capitalize", "Uncapitalize"} -> <<"String">>
